@@ -13,6 +13,11 @@ sys.path.insert(0, os.path.join(VERIF, 'spec'))
 PROPS = {}
 
 
+def _conv_harnesses(tier):
+    import expr_gen
+    return expr_gen.conv_harness_names(tier)
+
+
 # ------------------------------------------------------------------------------------------------ C07
 def witnesses_c07(tier, seed):
     import ihex_sem
@@ -216,8 +221,8 @@ PROPS['C04'] = dict(
     level_note='same assumptions as C01; where the ISA leaves a spelling open (displacement form under ld/st, plain forms under ldd/std) '
                'the clause is the one of observe_at: if Ok, the bytes are the reference encoding of the pointer form as written',
     technique='Verus postcondition Ok ==> shape_ok on the extracted process + Kani contract harnesses against the ISA oracle (Err side)',
-    verus=['encv'],
-    kani=[dict(slice='enc', harnesses=_enc_harnesses(), cex=_enc_cex)],
+    verus=['encv', 'expr'],
+    kani=[dict(slice='enc', harnesses=_enc_harnesses(), cex=_enc_cex), dict(slice='conv', harnesses=lambda tier: _conv_harnesses(tier))],
     cex_replay=_enc_witness_from_cex,
     witnesses=witnesses_enc(),
     functions=PROPS['C01']['functions'],
@@ -243,4 +248,76 @@ PROPS['C03'] = dict(
     assumptions=ENC_ASSUME,
     trusted=PROPS['C01']['trusted'],
     bounded=['binding witnesses at both range limits and one beyond, forward and backward, at three addresses'],
+)
+
+
+# ------------------------------------------------------------------------------------------------ C05
+def _step_harnesses(tier):
+    import expr_gen
+    return expr_gen.step_harness_names(tier)
+
+
+def _conv_harnesses(tier):
+    import expr_gen
+    return expr_gen.conv_harness_names(tier)
+
+
+def witnesses_c05(tier, seed):
+    import expr_sem
+    ws = expr_sem.witnesses(2500 if tier == 'quick' else 12000, seed or 3)
+    # remainder values are not decided by a verifier (see bounded): add a dense grid for %
+    grid = [0, 1, -1, 2, -2, 3, -3, 7, -7, 10, 255, -256, 65537, expr_sem.I64_MAX, expr_sem.I64_MIN + 1]
+    for a in grid:
+        for b in grid:
+            ta = str(a) if a >= 0 else '(-%d)' % -a
+            tb = str(b) if b >= 0 else '(-%d)' % -b
+            for op in ('%', '/'):
+                try:
+                    e = expr_sem.binop(op, a, b)
+                except expr_sem.Fail:
+                    e = None
+                ws.append(('%s %s %s' % (ta, op, tb), e))
+    res = replay.run_jobs(['build\n.dq %s\n' % w[0] for w in ws])
+    out = []
+    for (src, e), r in zip(ws, res):
+        if r.get('status') == 'ok':
+            got = int.from_bytes(bytes.fromhex(r['code']), 'little', signed=True)
+        else:
+            got = None if r.get('status') == 'err' else r.get('status')
+        out.append(WitnessResult('expr:' + src, 'build\n.dq %s\n' % src, got == e, got if got is not None else 'error ' + r.get('err', '')[:100],
+                                 e if e is not None else 'build fails', 'expr/'))
+    return out
+
+
+PROPS['C05'] = dict(
+    level_text='Proof: (Verus, unbounded) Expr::run/run_nested verbatim: terminates, never panics, and agrees with the recursive oracle '
+               'eval() built from the operator table on expression trees of every shape and depth (one labelled clause per operator), '
+               'incl. checked arithmetic, zero divisor, shift-amount and nesting-limit failures and identifier lookup; (Kani, complete) '
+               'each operator/function step of the same function equals an independent i128 div/mod twin for all i64 operands. '
+               'Precedence, associativity and literal forms live in the PEG grammar and are only bound by native witnesses.',
+    level_note='assumes: grammar (precedence!/e_const), to_lowercase/checked_neg std contracts, str injectivity axiom; quotient value of / '
+               'is proved only in the thorough tier (4 min SAT), remainder value of % only on a bounded grid (CBMC gave up); log2 unspecified',
+    technique='Verus recursion/termination proof against a spec interpreter + Kani per-operator step harnesses (recursion stubbed, R14)',
+    verus=['expr'],
+    kani=[dict(slice='exprstep', harnesses=_step_harnesses), dict(slice='conv', harnesses=_conv_harnesses)],
+    witnesses=witnesses_c05,
+    functions=['Expr::run', 'Expr::run_nested', 'Expr::get_byte/get_bit_index/get_words/get_double_words/get_quad_words (src/expr.rs)'],
+    explanation='eval() in contracts/expr.vspec is the oracle (operator table of the property); agrees(run(e), eval(e)) is proved by '
+                'induction on the tree with decreases (nesting budget, tree). The Kani step slice replaces the recursive calls by a stub '
+                'returning the child value (R14) and compares every operator with an independent twin for all 2^128 operand pairs.',
+    assumptions=[
+        'grammar: precedence, associativity, literal radix forms are in peg::parser! (document.rs) -- outside both verifiers; bound only by '
+        '2500 (quick) / 12000 (thorough) generated expressions (every operator on a boundary grid, every ordered operator pair without '
+        'parentheses, random trees with minimal parentheses and mixed literal forms) evaluated natively through `.dq` and compared '
+        'with spec/expr_sem.py',
+        'Verus treats bit operators definitionally (same expression in spec and code); their independent meaning (div/mod twin) is the Kani step',
+        'R14 (Kani step only): recursive calls replaced by a stub returning the child value; the recursion itself is the Verus proof',
+        'vstd specs of checked_add/sub/mul/div/rem; assumed: i64::checked_neg, str::to_lowercase (uninterpreted lower()), str view injectivity',
+        'log2 is not in the operator table of the property: any outcome accepted (panic-freedom and termination of its loop are proved)',
+    ],
+    trusted=['spec/expr_sem.py (python twin used for the grammar witnesses)'],
+    bounded=['value of % (remainder): CBMC did not finish (>15 min) on the 64-bit divider; covered on a 15x15 boundary grid natively; its '
+             'failure conditions (zero divisor, MIN % -1) ARE proved by Verus',
+             'value of / (quotient): proved by Kani against the division theorem only in the thorough tier; quick: same grid'],
+    not_decided=['precedence/associativity/literals (grammar): witnesses only'],
 )
